@@ -19,6 +19,16 @@ package bucketteer
 
 // ---- writer ----
 
+// newPrefixToHashes: 65 536 empty buckets, each with storage of its own. Distinct storage is what makes an append to one
+// bucket invisible in every other bucket (C05: a signature that was Put stays in its bucket until Seal).
+//@ func newPrefixToHashes
+//@   mode int
+//@   ensures result != nil
+//@   ensures forall a int :: 0 <= a && a < 65536 ==> len(result[a]) == 0
+//@   ensures forall a, b int :: 0 <= a && a < b && b < 65536 ==> ref(result[a]) != ref(result[b])
+//@   loop 0 invariant forall a int :: 0 <= a && a < rangeidx0 ==> len(out[a]) == 0 && allocated(out[a]) && ref(out[a]) > 0
+//@   loop 0 invariant forall a, b int :: 0 <= a && a < b && b < rangeidx0 ==> ref(out[a]) != ref(out[b])
+
 //@ func (*Writer) Put
 //@   mode int
 //@   requires b.prefixToHashes != nil
